@@ -87,6 +87,17 @@ func init() {
 		rand.Seed(int64(atoi(a[0])))
 		return okFloats(dna.BuildWeightsDirichlet(al))
 	})
+	// two alignments in the same process, one after the other: the second result must not remember the first
+	register("c20wdir2", func(a []string) string {
+		rand.Seed(int64(atoi(a[0])))
+		dna.BuildWeightsDirichlet(alignOfLength(atoi(a[1])))
+		return okFloats(dna.BuildWeightsDirichlet(alignOfLength(atoi(a[2]))))
+	})
+	register("c20wgamma2", func(a []string) string {
+		rand.Seed(int64(atoi(a[0])))
+		dna.BuildWeightsGamma(alignOfLength(atoi(a[1])))
+		return okFloats(dna.BuildWeightsGamma(alignOfLength(atoi(a[2]))))
+	})
 	register("c20dir", func(a []string) string {
 		rand.Seed(int64(atoi(a[0])))
 		s, err := stats.Dirichlet(fbits(a[1]), fbitsList(a[2])...)
